@@ -276,6 +276,73 @@ def returns_of(f, adt_suffix="error::Error"):
     return out
 
 
+def rule_format_error_evaluated(col, facts):
+    """KEY-constraints (evaluated): format_error_impl - a loop-free const fn of the packed format - is read as the
+    decision table its paths denote (helpers of lexical_util followed) and evaluated on witness formats built from
+    the flag constants: STANDARD plus exactly the flags of one documented constraint must give that constraint's
+    error, STANDARD plus any *one* of those flags (or the consecutive flag together with a position flag) must be
+    valid.  This decides the flag-combination constraints however their conditions are spelt (`a && b`,
+    `format & PAIR == PAIR`, a helper, merged arms), and a test of the wrong mask or flag changes a witness."""
+    if "format" not in facts.config:
+        return
+    from rules.pathmodel import Model, Shape, Panic
+    R = "KEY-constraints"
+    FLG = "lexical_util::format_flags::"
+    f = facts.fn("lexical_util::feature_format::format_error_impl")
+    cache = {}
+
+    def resolver(n):
+        if not n.startswith("lexical_util::") or not facts.has_fn(n):
+            return None
+        if n not in cache:
+            cache[n] = None
+            try:
+                cache[n] = Model(facts.fn(n), "u128", resolver=resolver)
+            except Exception:
+                cache[n] = None
+        return cache[n]
+    k = lambda name: facts.const_value(FLG + name)
+    std = facts.const_value("lexical_util::format::STANDARD")
+    sep = ord("_") << k("DIGIT_SEPARATOR_SHIFT")
+    cases = []      # (label, format, expected variant)
+    pairs = [("InvalidExponentFlags", ["NO_EXPONENT_NOTATION", "REQUIRED_EXPONENT_NOTATION"]),
+             ("InvalidMantissaSign", ["NO_POSITIVE_MANTISSA_SIGN", "REQUIRED_MANTISSA_SIGN"]),
+             ("InvalidExponentSign", ["NO_POSITIVE_EXPONENT_SIGN", "REQUIRED_EXPONENT_SIGN"]),
+             ("InvalidSpecial", ["NO_SPECIAL", "CASE_SENSITIVE_SPECIAL"]),
+             ("InvalidSpecial", ["NO_SPECIAL", "SPECIAL_DIGIT_SEPARATOR"])]
+    for variant, names in pairs:
+        w = std
+        for nm in names:
+            w |= k(nm)
+        cases.append(("+".join(names), w | (sep if "SPECIAL_DIGIT_SEPARATOR" in names else 0), variant))
+        for nm in names:
+            cases.append((nm + " alone", std | k(nm) | (sep if nm == "SPECIAL_DIGIT_SEPARATOR" else 0), "Success"))
+    for comp in ("INTEGER", "FRACTION", "EXPONENT"):
+        c = k(comp + "_CONSECUTIVE_DIGIT_SEPARATOR")
+        cases.append((comp + "_CONSECUTIVE alone", std | sep | c, "InvalidConsecutive%sDigitSeparator" % comp.capitalize()))
+        for pos in ("INTERNAL", "LEADING", "TRAILING"):
+            cases.append(("%s_CONSECUTIVE+%s" % (comp, pos), std | sep | c | k("%s_%s_DIGIT_SEPARATOR" % (comp, pos)), "Success"))
+            cases.append(("%s_%s alone" % (comp, pos), std | sep | k("%s_%s_DIGIT_SEPARATOR" % (comp, pos)), "Success"))
+    cases.append(("STANDARD", std, "Success"))
+    for nm, shift in (("InvalidMantissaRadix", "MANTISSA_RADIX_SHIFT"), ("InvalidExponentBase", "EXPONENT_BASE_SHIFT"), ("InvalidExponentRadix", "EXPONENT_RADIX_SHIFT")):
+        sh = k(shift)
+        cases.append((nm + " (37)", (std & ~(0xFF << sh)) | (37 << sh), nm))
+    try:
+        m = Model(f, "u128", resolver=resolver)
+        n = 0
+        for label, w, want in cases:
+            v = m.value([w])
+            got = v[2] if isinstance(v, tuple) and v and v[0] == "enum" else repr(v)
+            n += 1
+            col.check(R, "witness:%s" % label, got == want,
+                      "format_error_impl(STANDARD with %s) is Error::%s, the documented constraint table says Error::%s" % (label, got, want), f.loc())
+        col.floor(R, "constraint witnesses evaluated", n, 40)
+    except Shape as e:
+        col.assumed("not-applied", "KEY-constraints:witnesses", "format_error_impl is not a loop-free decision table that can be evaluated (%s): witnesses not decided" % e, f.loc())
+    except Panic as e:
+        col.bad(R, "format_error_impl-panic", "an overflow check can fire while validating a format: %s" % e, f.loc())
+
+
 def rule_format_error(col, facts):
     """KEY-constraints: format_error_impl has a rejecting branch, with the right polarity and the
     documented error, for every documented constraint; Success is returned only past all of them."""
@@ -286,6 +353,13 @@ def rule_format_error(col, facts):
     rets = returns_of(f)
     table = FORMAT_CONSTRAINTS + (FORMAT_CONSTRAINTS_FEATURE if fmt else [])
     used = set()
+    unread = set()
+    # every Error variant produced by format_error_impl or by a helper of the same crate it calls
+    produced = {v for _bb, v, _sp in rets}
+    for _b, c, _a, _d, _t in f.calls():
+        for g in facts.by_short.get(callee_name(c), []):
+            if g.crate == f.crate:
+                produced |= {v for _bb, v, _sp in returns_of(g)}
     for n, (variant, atoms) in enumerate(table):
         found = False
         for bb, v, sp in rets:
@@ -296,6 +370,12 @@ def rule_format_error(col, facts):
             if ok:
                 found = True
                 used.add(bb)
+        if not found and variant in produced:
+            # the variant is still produced (here or in a helper), under a condition this reader does not recognise
+            # (`format & PAIR == PAIR`, a helper predicate, merged arms): not decided for this tree
+            unread.add(variant)
+            col.assumed("not-applied", "KEY-constraints:%s#%d" % (variant, n), "Error::%s is produced under a condition written in a form the constraint reader does not know: not decided" % variant, f.loc())
+            continue
         col.check(R, "%s#%d" % (variant, n), found,
                   "no branch of format_error_impl returns Error::%s under the documented condition (check removed, polarity flipped or wrong flag)" % variant, f.loc())
     if not fmt:
@@ -311,10 +391,14 @@ def rule_format_error(col, facts):
                     if names == ["FLAG_MASK", "REQUIRED_EXPONENT_DIGITS", "REQUIRED_MANTISSA_DIGITS"]:
                         ok = True
                         used.add(bb)
-        col.check(R, "InvalidFlags", ok, "without `format`, any flag other than the STANDARD ones must give Error::InvalidFlags", f.loc())
+        if not ok and "InvalidFlags" in produced:
+            unread.add("InvalidFlags")
+            col.assumed("not-applied", "KEY-constraints:InvalidFlags", "Error::InvalidFlags is produced under a condition written in a form the constraint reader does not know: not decided", f.loc())
+        else:
+            col.check(R, "InvalidFlags", ok, "without `format`, any flag other than the STANDARD ones must give Error::InvalidFlags", f.loc())
     # every non-Success return must be one of the documented ones
     for bb, v, sp in rets:
-        if v != "Success":
+        if v != "Success" and v not in unread:
             col.check(R, "return:%s@%d" % (v, len([x for x in rets if x[0] < bb and x[1] == v])), bb in used,
                       "Error::%s is returned under a condition that is not in the documented constraint table: %s" %
                       (v, [(show(e), p) for _d, e, p in path_conditions(f, bb)][-2:]), f.loc(sp))
